@@ -614,6 +614,17 @@ M('C04', 'python split worker leaves flag', NPC, """    res._qdata = new_qdata
     res._data = new_data""", 'PAIR-effects')
 
 # ---------------------------------------------------------------- C16 / C19
+M('C16', 'gram_schmidt keeps vectors below rcond', KRY,
+  "        if n > rcond:\n            iscale_prefactor(vec, 1.0 / n)\n            res.append(vec)",
+  "        iscale_prefactor(vec, 1.0 / n)\n        res.append(vec)", 'KRYLOV-gram-schmidt')
+M('C16', 'gram_schmidt projects with unconjugated overlap', KRY,
+  "ov = npc.inner(other, vec, 'range', do_conj=True)", "ov = npc.inner(other, vec, 'range', do_conj=False)",
+  'KRYLOV-gram-schmidt')
+M('C16', 'alpha from unconjugated overlap', KRY,
+  "alpha = np.real(npc.inner(w, self._cache[-1], axes='range', do_conj=True)).item()",
+  "alpha = np.real(npc.inner(w, self._cache[-1], axes='range', do_conj=False)).item()", 'KRYLOV-ritz')
+M('C16', 'beta stored on one off-diagonal only', KRY,
+  "h[k, k + 1] = h[k + 1, k] = beta", "h[k, k + 1] = beta", 'KRYLOV-coefficients')
 M('C16', 'Arnoldi keeps the basis of the previous run (original defect)', KRY,
   "        self._cache = []  # drop the basis of a previous run()\n", '', 'KRYLOV-cache-reset')
 M('C16', 'cache emptied only when a rebuild is needed (seed a)', KRY,
